@@ -14,6 +14,35 @@ add("C01", "model_checking",
     "Explicit-state exploration of the real HashMap: every history with <=d deviations spliced anywhere into the growth path (E1) and every history of any length over a tiny key universe to a fixpoint (E2), each step compared with a BTreeMap reference; exact physical-state de-duplication.",
     TB, "bounded exhaustive exploration of the implementation (deviation-bounded BFS + small-universe fixpoint) against a reference model", "DESIGN.md section 5 C01, engines E1/E2")
 
+E12 = "bounded exhaustive exploration of the implementation (deviation-bounded BFS over the growth path + small-universe fixpoint, exact state de-duplication)"
+add("C02", "model_checking",
+    "Every subject call in every explored transition runs under a per-call monitor (hash computations via a counting BuildHasher, table allocations via a counting global allocator, elements moved via the O(1) stats hook) and is checked against the bounds of the statement; plus a scale sweep with the same monitors on every call up to 2*10^5 (quick) / 3*10^6 (thorough) elements with tombstone patterns.",
+    TB + " A chain of several entry calls is bounded per inserting call.", E12 + " with per-call work monitors; exhaustive-in-n scale sweep", "DESIGN.md section 5 C02, engines E1/E2/E7")
+add("C03", "model_checking",
+    "Per-call progress oracle on every explored transition (a key-adding call on a split map leaves exactly rem-min(R,rem) elements in the old table, the old table is freed when emptied - lazily only where the statement allows), a countdown of ceil(L/R) key-adding calls per resize, and the allocator's count of live tables (<=2, <=1 when no resize is pending); same monitors in the scale sweep.",
+    TB, E12 + " with resize-progress monitors; scale sweep", "DESIGN.md section 5 C03")
+add("C04", "model_checking",
+    "At every explored state capacity()>=len(); the head-room probe (insert capacity()-len() unseen keys: no panic, no table allocation, capacity never decreases, no resize pending afterwards) is an op of the alphabet applied at every state, after boundary-argument reserve/shrink_to/clone calls issued in every phase.",
+    TB, E12 + " with a head-room probe at every state", "DESIGN.md section 5 C04")
+add("C05", "model_checking",
+    "The C01/C09/C12 alphabets on heap-owning drop-ledgered elements and zero-sized elements, executed by an AddressSanitizer build (optimised, assertions off) and by a build with hashbrown's debug assertions on; after every call the cached move cursor is compared with the old table's contents through the hook; canaries on every element touched.",
+    TB + " UB that neither ASan, the canaries, the ledger, the cursor check nor hashbrown's assertions flag is out of reach.", E12 + " under AddressSanitizer and debug assertions, cursor-agreement invariant on every state", "DESIGN.md section 5 C05")
+add("C06", "model_checking",
+    "Drop ledger over unique object ids for keys and values: every explored history is closed by dropping the world; a second drop, a stored object that is not live, an object stored twice, or anything (element or table allocation) still live afterwards is a violation; iterators are dropped / forgotten at every consumption prefix.",
+    TB, E12 + " with a drop ledger and allocation liveness", "DESIGN.md section 5 C06")
+add("C08", "model_checking",
+    "At every explored state each iterator kind is walked with len()/size_hint() checked before every next(), fusedness, clone-at-every-position independence, keys/values order agreement; drain/into_iter consumed, dropped or forgotten at every prefix, followed by the growth path.",
+    TB, E12 + " with iterator oracles at every state and every consumption prefix", "DESIGN.md section 5 C08")
+add("C09", "model_checking",
+    "retain / drain_filter with every predicate of a structured family (none, all, old-table-only, new-table-only, parities, single keys, all 2^k subsets of the location-class representatives, with and without value mutation) at every explored state; predicate call log, kept / yielded sets, early drop and forget at every prefix; then the trajectory continues.",
+    TB, E12 + " over states x predicates x early-drop points", "DESIGN.md section 5 C09")
+add("C10", "model_checking",
+    "Every reserve/try_reserve argument in [0,2cap+4], every shrink_to argument in [0,cap+2], windows around usize::MAX and isize::MAX, with_capacity for all n<=1100 and 2^k+-1, at every explored state, in the chk and rel binaries; oracle is the statement (capacity lower bounds, no allocation while filling, Err => unchanged, overflow => Err/panic, never a normal return having reserved nothing).",
+    TB + " Requests between 2^40 and the layout limit really ask the OS for memory: exercised with try_reserve only.", E12 + " over capacity arguments incl. integer-limit windows, two build profiles", "DESIGN.md section 5 C10")
+add("C12", "model_checking",
+    "Every type-correct method chain of length <=3 over Entry/OccupiedEntry/VacantEntry/RawEntryMut/RawOccupiedEntryMut/RawVacantEntryMut handles, on every key location class, at every explored state including the insertions that trigger growth; every accessor is compared with the reference element and writes through returned references are read back.",
+    TB + " Chains that call replace_entry/replace_key on a handle descending from Entry::insert are not generated (hashbrown documents that panic).", E12 + " over a typed grammar of handle method chains", "DESIGN.md section 5 C12")
+
 import os
 claimed = sorted(CHECKS)
 ALL = [f"C{i:02d}" for i in range(1, 18)]
